@@ -1270,8 +1270,10 @@ class ASTBuilder:
             mod: Optional[ast.Module] = None
             try:
                 mod = parseFile(path)
-            except (SyntaxError, ValueError, RecursionError, MemoryError) as e:
+            except (SyntaxError, ValueError, RecursionError, MemoryError, OSError) as e:
                 # RecursionError, MemoryError: the parser gives up on too deeply nested code.
+                # OSError: the file cannot be read (a directory or a broken link named like a
+                # module, missing permissions).
                 ctx.report(f"cannot parse file, {e}")
 
             self.ast_cache[path] = mod
